@@ -150,6 +150,22 @@ func c03(r *ev.Run, replay string) {
 	if !r.Expired() {
 		r.Completed(fmt.Sprintf("every scalar and fixed-width byte field of %d base messages varied alone over its value alphabet (Appendix B)", len(bases)))
 	}
+	// (2b) pairs of scalar fields of one element, each at {0, 1, largest, largest-2}
+	{
+		np, ok := sel.varyPairs(r.Expired, func(t *wire.N, what string) {
+			rep := shapeCase{Model: t.String(), Tree: t}
+			c03Compare(r, t, bind.Hist{}, " [varied "+what+"]", func(sig, w string) {
+				r.Violation(sig, w+" for "+shortModel(t), rep)
+			})
+		})
+		nvar += np
+		r.Set("same_element_pair_variations", np)
+		if ok {
+			r.Completed("every pair of scalar fields of one element set to {0, 1, largest, largest-2} x {0, 1, largest, largest-2}")
+		} else {
+			r.Incomplete("same-element field-pair variations")
+		}
+	}
 	// (3) thorough: adjacent field pairs ("two deviations from base")
 	if r.Thorough() {
 		var npair int64
